@@ -33,6 +33,9 @@ def json_leaf(rng, retypable=True):
                         # an odd number of embedded quotes, comment-like and URL-like content: all plain text inside a JSON string
                         '27" display', 'pipe 3/4" /* nominal */ steel', "src/*/test/*/conftest.py", "a // b", "http://x.org/y", "/* remark */",
                         "tab\there", "line\nbreak", "\u2028sep"])
+        if not retypable and rng.random() < 0.12:
+            # quote characters at the very ends (only compared on the formatter -> parser route: a JSON string is data)
+            s = rng.choice(['5"', "'single quoted'", "rock 'n'", '"', "'", "''x''", '"dq"', "12''", "'", "it's'", '3\''])
         if retypable and rng.random() < 0.3:
             s = rng.choice(["1", "2.5", "true", "NULL", "off", "1e5", "-3"])
         return s
@@ -154,7 +157,7 @@ def read_document(files, assignment):
 def oracle(case: dict):
     dictIO = native.dictio()
     kind = case["kind"]
-    if kind == "rt":
+    if kind in ("rt", "rtd"):
         d = case["t"]
         if json.loads(json.dumps(d)) != d:
             return None
@@ -165,6 +168,8 @@ def oracle(case: dict):
             return ("raises", f"JSON string round trip raised {type(e).__name__}: {e}")
         if not gen.typed_eq(back, d):
             return ("rt-string", f"JsonParser(JsonFormatter(d)) = {back!r}, d = {d!r}")
+        if kind == "rtd":
+            return None         # strings with quote characters at their ends: the formatter -> parser route only
         tmp = native.scratch_dir("c09r_")
         try:
             f = tmp / "x.json"
@@ -198,9 +203,9 @@ def oracle(case: dict):
 
 
 def shrink(case):
-    if case["kind"] == "rt":
+    if case["kind"] in ("rt", "rtd"):
         for t2 in gen.shrink_tree(case["t"]):
-            yield {"kind": "rt", "t": t2}
+            yield {"kind": case["kind"], "t": t2}
     else:
         files = case["files"]
         for i, f in enumerate(files):
@@ -217,6 +222,12 @@ def run(ctx):
     rng = ctx.rng
     dictIO = native.dictio()
     rts = [{"kind": "rt", "t": json_tree(rng)} for _ in range(ctx.n(500, 12000))]
+    rtds = [{"kind": "rtd", "t": json_tree(rng, retypable=False)} for _ in range(ctx.n(150, 3000))]
+    for c in rtds:
+        r = oracle(c)
+        if r:
+            ctx.oracle_fail(c, r[0], r[1])
+        ctx.count(("rtd", repr(c["t"])), True, "rt-direct")
     # model correspondence: JSON front end on every tree (plus trees with include keys and dollar strings)
     mtrees = [c["t"] for c in rts[: ctx.n(300, 4000)]]
     for _ in range(ctx.n(150, 2000)):
